@@ -11,7 +11,6 @@ import (
 	"pgregory.net/rapid"
 	"verifh/refmqtt"
 	"verifh/sim"
-	"verifh/stats"
 )
 
 // C10 — the read routine never wedges: failed connections are left and redialed.
@@ -168,11 +167,10 @@ func TestC10NeverWedges(t *testing.T) {
 			case 0:
 				pending = append(pending, h.sub(1, 1))
 			case 1:
-				// one Ping at a time: two overlapping Pings of which one fails
-				// its write is the open finding F7 (excluded by construction)
+				// (overlapping Pings were excluded while finding F7 was open;
+				// a second one gets ErrMax or the slot, both fine)
 				if pinged || failure == "foreign-ping-write-fails" {
-					stats.For("C10").Exclude("F7")
-					continue
+					h.label("overlapping-pings")
 				}
 				pinged = true
 				pending = append(pending, h.ping())
